@@ -30,6 +30,10 @@ type Initializer interface {
 
 func tryInitDefaults(val reflect.Value) reflect.Value {
 	t := val.Type()
+	if t.Kind() == reflect.Interface && val.IsNil() {
+		// a field typed as an interface holding nothing has no InitDefaults to call
+		return val
+	}
 
 	var initializer Initializer
 	if t.Implements(iInitializer) {
